@@ -126,7 +126,7 @@ FilterRef(f, v, a) ==
                      ELSE IF v.k = "str" THEN S(JoinWith([i \in 1..Len(v.s) |-> <<v.s[i]>>], StrOf(a))) ELSE v
     [] f = "make_list" -> L([i \in 1..Len(StrOf(v)) |-> S(<<StrOf(v)[i]>>)])
     [] f = "split" -> L([i \in 1..Len(SplitOn(StrOf(v), StrOf(a)[1], <<>>, <<>>)) |-> S(SplitOn(StrOf(v), StrOf(a)[1], <<>>, <<>>)[i])])
-    [] f = "cut" -> S(SelectSeq(StrOf(v), LAMBDA c : <<c>> # StrOf(a)))
+    [] f = "cut" -> S(RemoveSub(StrOf(v), StrOf(a)))
     [] f = "truncatechars" ->
          LET n == IntOf(a) s == StrOf(v) IN
          IF n <= 0 \/ Len(s) <= n THEN S(s)
